@@ -513,3 +513,193 @@ Proof. reflexivity. Qed.
 (* pinned tree: DoHTransport.Close with an extra closer calls itself — no stack depth suffices *)
 Lemma close_pinned_diverges fuel : close_calls true fuel (CeDoH true) = OutOfFuel.
 Proof. induction fuel as [|f IH]; cbn; auto. Qed.
+
+(* =====================================================================================================
+   Part 4 — the big steps replayed by the harness are schedules of the small-step systems
+   ===================================================================================================== *)
+Lemma r_run_app a : forall s s1 b, r_run s a = Some s1 -> r_run s (a ++ b) = r_run s1 b.
+Proof.
+  induction a as [|l a IH]; intros s s1 b H; cbn in *; [inversion H; reflexivity|].
+  destruct (r_step s l); [|discriminate]. now apply IH.
+Qed.
+
+Lemma r_quiesce_refines h fuel : forall s, exists ls, r_run s ls = Some (r_quiesce h fuel s).
+Proof.
+  induction fuel as [|f IH]; intros s; cbn; [exists []; reflexivity|].
+  destruct (r_first_internal h s (rs_tasks s) 0) as [l|]; [|exists []; reflexivity].
+  destruct (r_step s l) as [s'|] eqn:E; [|exists []; reflexivity].
+  destruct (IH s') as [ls H]. exists (l :: ls). cbn. now rewrite E.
+Qed.
+
+Lemma r_big_refines h s e s' : r_big h s e = Some s' -> exists ls, r_run s ls = Some s'.
+Proof.
+  unfold r_big. destruct (r_run s (r_ext_labels s e)) as [s1|] eqn:E; [|discriminate].
+  intros H. inversion H; subst. destruct (r_quiesce_refines h big_fuel s1) as [ls Hl].
+  exists (r_ext_labels s e ++ ls). now rewrite (r_run_app _ _ _ _ E).
+Qed.
+
+Fixpoint r_bigs (h : bool) (s : rstate) (es : list xev) : option rstate :=
+  match es with
+  | [] => Some s
+  | e :: tl => match r_big h s e with Some s' => r_bigs h s' tl | None => None end
+  end.
+
+Lemma r_bigs_refines h es : forall s s', r_bigs h s es = Some s' -> exists ls, r_run s ls = Some s'.
+Proof.
+  induction es as [|e es IH]; intros s s' H; cbn in H; [inversion H; exists []; reflexivity|].
+  destruct (r_big h s e) as [s1|] eqn:E; [|discriminate].
+  destruct (r_big_refines _ _ _ _ E) as [l1 H1]. destruct (IH _ _ H) as [l2 H2].
+  exists (l1 ++ l2). now rewrite (r_run_app _ _ _ _ H1).
+Qed.
+
+Lemma p_run_app a : forall s s1 b, p_run s a = Some s1 -> p_run s (a ++ b) = p_run s1 b.
+Proof.
+  induction a as [|l a IH]; intros s s1 b H; cbn [p_run app] in *; [inversion H; reflexivity|].
+  destruct (p_step s l); [|discriminate]. now apply IH.
+Qed.
+
+Lemma p_quiesce_refines h m fuel : forall s, exists ls, p_run s ls = Some (p_quiesce h m fuel s).
+Proof.
+  induction fuel as [|f IH]; intros s; cbn [p_quiesce]; [exists []; reflexivity|].
+  destruct (p_first_internal h m s) as [l|]; [|exists []; reflexivity].
+  destruct (p_step s l) as [s'|] eqn:E; [|exists []; reflexivity].
+  destruct (IH s') as [ls H]. exists (l :: ls). cbn [p_run]. now rewrite E.
+Qed.
+
+Lemma p_big_refines h m s e s' : p_big h m s e = Some s' -> exists ls, p_run s ls = Some s'.
+Proof.
+  unfold p_big. destruct (p_ext_labels s e) as [l0|]; [|discriminate].
+  destruct (p_run s l0) as [s1|] eqn:E; [|discriminate].
+  intros H. inversion H; subst. destruct (p_quiesce_refines h m big_fuel s1) as [ls Hl].
+  exists (l0 ++ ls). now rewrite (p_run_app _ _ _ _ E).
+Qed.
+
+Fixpoint p_bigs (h : bool) (m : nat) (s : pstate) (es : list xev) : option pstate :=
+  match es with
+  | [] => Some s
+  | e :: tl => match p_big h m s e with Some s' => p_bigs h m s' tl | None => None end
+  end.
+
+Lemma p_bigs_refines h m es : forall s s', p_bigs h m s es = Some s' -> exists ls, p_run s ls = Some s'.
+Proof.
+  induction es as [|e es IH]; intros s s' H; cbn in H; [inversion H; exists []; reflexivity|].
+  destruct (p_big h m s e) as [s1|] eqn:E; [|discriminate].
+  destruct (p_big_refines _ _ _ _ _ E) as [l1 H1]. destruct (IH _ _ H) as [l2 H2].
+  exists (l1 ++ l2). now rewrite (p_run_app _ _ _ _ H1).
+Qed.
+
+(* =====================================================================================================
+   Part 2 — PipelineTransport on connpool.Pool
+   ===================================================================================================== *)
+Lemma p_close_total s : exists s', p_step s PClose = Some s' /\ ps_closed s' = true.
+Proof. cbn. destruct (ps_closed s) eqn:E; eexists; split; eauto. Qed.
+
+Lemma p_close_idempotent s s' : p_step s PClose = Some s' -> p_step s' PClose = Some s'.
+Proof. cbn. destruct (ps_closed s) eqn:E; intros H; inversion H; subst; cbn; [now rewrite E|reflexivity]. Qed.
+
+Definition p_result_of (s : pstate) (t : nat) := p_result s t.
+
+Lemma p_new_exchange_fails s :
+  ps_closed s = true ->
+  exists s', p_run s [PSpawn; PGet (length (ps_tasks s)) GNew] = Some s' /\
+             p_result s' (length (ps_tasks s)) = Some false.
+Proof.
+  intros Cl. cbn [p_run p_step]. cbn [padd_task ps_tasks ps_closed].
+  rewrite nth_error_app2 by lia. rewrite Nat.sub_diag. cbn [nth_error pt_stage]. rewrite Cl.
+  eexists. split; [reflexivity|]. unfold p_result; cbn.
+  rewrite nth_error_upd_eq by (rewrite app_length; cbn; lia). reflexivity.
+Qed.
+
+(* every dial call without a result is still listed and the pool is open:
+   Pool.Close gives every pending call a result (cancelDial), and no call is created afterwards *)
+Definition dinv (closed : bool) (dd : pdial) : Prop :=
+  pd_result dd = None -> pd_listed dd = true /\ closed = false.
+
+Definition DInv (s : pstate) : Prop := Forall (dinv (ps_closed s)) (ps_dials s).
+
+Lemma p_trim_dials : forall trim s s', p_trim s trim = Some s' -> ps_dials s' = ps_dials s /\ ps_closed s' = ps_closed s.
+Proof.
+  induction trim as [|c tl IH]; intros s s' H; cbn in H; [inversion H; auto|].
+  destr H. apply IH in H. cbn in H. exact H.
+Qed.
+
+Lemma p_io_fail_dials s t k c f : ps_dials (p_io_fail s t k c f) = ps_dials s /\ ps_closed (p_io_fail s t k c f) = ps_closed s.
+Proof. unfold p_io_fail. destruct (pt_res k); [|destruct (_ && _)]; auto. Qed.
+
+Lemma p_step_dinv s l s' : DInv s -> p_step s l = Some s' -> DInv s'.
+Proof.
+  unfold DInv. intros HD Hs.
+  destruct l; cbn in Hs.
+  - inversion Hs; subst; exact HD.
+  - (* PGet *)
+    destruct (nth_error (ps_tasks s) t) as [k|]; [|discriminate].
+    destruct (pt_stage k); try discriminate.
+    destruct (ps_closed s) eqn:Cl; [inversion Hs; subst; cbn; now rewrite Cl|].
+    destruct g.
+    + destr Hs. inversion Hs; subst; cbn. now rewrite Cl.
+    + destr Hs. inversion Hs; subst; cbn. now rewrite Cl.
+    + destr Hs. inversion Hs; subst; cbn. rewrite Cl. apply Forall_upd; auto.
+      pose proof (Forall_nth_error _ _ _ _ HD E0) as Hd. unfold dinv in *; cbn. exact Hd.
+    + inversion Hs; subst; cbn. apply Forall_snoc; auto. unfold dinv; cbn. auto.
+  - destr Hs. inversion Hs; subst; cbn. apply Forall_upd; auto.
+    pose proof (Forall_nth_error _ _ _ _ HD E) as Hd. unfold dinv in *; cbn. exact Hd.
+  - destr Hs. inversion Hs; subst; cbn. apply Forall_upd; auto.
+    pose proof (Forall_nth_error _ _ _ _ HD E) as Hd. unfold dinv in *; cbn. exact Hd.
+  - (* PDialFinish *)
+    destruct (nth_error (ps_dials s) d) as [dd|] eqn:E; [|discriminate].
+    pose proof (Forall_nth_error _ _ _ _ HD E) as Hd.
+    destruct (pd_stage dd); try discriminate.
+    destruct (ps_closed s || match pd_result dd with Some _ => true | None => false end) eqn:Cn;
+      inversion Hs; subst; clear Hs.
+    + destruct ok; cbn; (apply Forall_upd; auto); unfold dinv in *; cbn; intros R; specialize (Hd R);
+        destruct Hd as [_ Hc]; rewrite Hc, R in Cn; discriminate.
+    + apply orb_false_iff in Cn. destruct Cn as [Cl _].
+      destruct ok; cbn; rewrite Cl in *; (apply Forall_upd; auto); unfold dinv; cbn; discriminate.
+  - destr Hs; inversion Hs; subst; exact HD.
+  - destr Hs; inversion Hs; subst; exact HD.
+  - destr Hs; inversion Hs; subst.
+    match goal with |- context [p_io_fail ?s0 ?t0 ?k0 ?c0 ?f0] => destruct (p_io_fail_dials s0 t0 k0 c0 f0) as [-> ->] end. exact HD.
+  - destr Hs; inversion Hs; subst;
+    match goal with |- context [p_io_fail ?s0 ?t0 ?k0 ?c0 ?f0] => destruct (p_io_fail_dials s0 t0 k0 c0 f0) as [A B] end;
+    destruct kill; cbn; rewrite ?A, ?B; exact HD.
+  - destr Hs; inversion Hs; subst; exact HD.
+  - destr Hs; inversion Hs; subst; exact HD.
+  - (* PRel2 *)
+    destr Hs; inversion Hs; subst; cbn; try exact HD.
+    all: match goal with H : p_trim _ _ = Some _ |- _ => apply p_trim_dials in H; cbn in H; destruct H as [-> ->]; exact HD end.
+  - destr Hs; inversion Hs; subst; exact HD.
+  - destr Hs; inversion Hs; subst; exact HD.
+  - destr Hs; inversion Hs; subst; exact HD.
+  - (* PCancel *)
+    destr Hs; inversion Hs; subst; cbn; try exact HD.
+    all: apply Forall_upd; auto.
+    all: match goal with H : nth_error (ps_dials _) _ = Some ?dd |- dinv _ _ =>
+           pose proof (Forall_nth_error _ _ _ _ HD H) as Hd; unfold dinv in *; cbn; intros _; apply Hd; assumption end.
+  - (* PClose *)
+    destruct (ps_closed s) eqn:Cl; inversion Hs; subst; cbn; [now rewrite Cl|].
+    apply Forall_map. eapply Forall_impl; [|exact HD]. intros dd Hd. unfold dinv, pd_cancel in *.
+    destruct (pd_listed dd) eqn:L; [destruct (pd_result dd) eqn:R; cbn; congruence|].
+    intros R. destruct (Hd R) as [H _]. congruence.
+Qed.
+
+Lemma p_run_dinv ls : forall s s', DInv s -> p_run s ls = Some s' -> DInv s'.
+Proof.
+  induction ls as [|l ls IH]; intros s s' HI H; cbn [p_run] in H; [inversion H; subst; exact HI|].
+  destruct (p_step s l) as [s1|] eqn:E; [|discriminate]. eapply IH; [|exact H]. eapply p_step_dinv; eauto.
+Qed.
+
+Lemma p_dials_resolved ls s :
+  p_run p_init ls = Some s -> ps_closed s = true ->
+  forall d dd, nth_error (ps_dials s) d = Some dd -> pd_result dd <> None.
+Proof.
+  intros H Cl d dd E R. assert (DInv s) as HD by (eapply p_run_dinv; [|exact H]; constructor).
+  pose proof (Forall_nth_error _ _ _ _ HD E) as Hd. destruct (Hd R) as [_ Hc]. congruence.
+Qed.
+
+(* the stream/datagram upstreams built on the two modelled transports close in an orderly way; the HTTP and
+   QUIC based ones do not (known findings K6a, K6c, K6d) *)
+Lemma up_orderly_classic k : In k [KUdp; KTcp; KTcpPipeline; KTls; KTlsPipeline] -> up_orderly k = true.
+Proof. cbn. intros [<-|[<-|[<-|[<-|[<-|[]]]]]]; reflexivity. Qed.
+
+Lemma up_orderly_refuted : up_orderly KHttps = false /\ up_orderly KH3 = false /\ up_orderly KQuic = false.
+Proof. repeat split. Qed.
